@@ -20,7 +20,7 @@ def run(repo, run, tier):
     cache_key(repo, run)
     wrappers(repo, run)
     layout(repo, run)
-    fd_extrapolation(repo, run)
+    fd_extrapolation(repo, run, tier)
 
 
 # ------------------------------------------------------------------------------------------------
@@ -365,11 +365,11 @@ def _exact_stencil(n, order=1):
             if r != c and M[r][c] != 0:
                 M[r] = [a - M[r][c] * b for a, b in zip(M[r], M[c])]
     w = [M[i][n] for i in range(n)]
-    exps = [k - 1 for k in range(n, n + 14) if sum(wj * x ** k for wj, x in zip(w, xs)) != 0]
+    exps = [k - 1 for k in range(n, n + 30) if sum(wj * x ** k for wj, x in zip(w, xs)) != 0]
     return w, exps
 
 
-def fd_extrapolation(repo, run):
+def fd_extrapolation(repo, run, tier="quick"):
     """'agrees with the analytic Jacobian to near the accuracy its tolerances request ... for all base orders': the tolerances are requested from a
     Richardson tableau over finite-difference estimates; every column of that tableau has to remove the leading term of the error expansion of the
     previous one, otherwise the tableau converges no faster than its first column and stops at the rounding floor of that column."""
@@ -475,12 +475,12 @@ def fd_extrapolation(repo, run):
         run.analysed_fn(UTL, fn)
         params = [a.arg for a in fn.args.args]
         kwdefaults = {a.arg: d for a, d in zip(fn.args.kwonlyargs, fn.args.kw_defaults)}
-        for n in range(2, 11):
+        for n in range(2, 11 if tier == "quick" else 15):
             w, exps = _exact_stencil(n)
             p = exps[0]
-            for R in (3, 4, 5, 6):
+            for R in ((3, 4, 5, 6) if tier == "quick" else (3, 4, 5, 6, 7, 8, 9)):
                 dom = Dom(n, R, exps[:R + 2])
-                it = Interp(dom, max_paths=256)
+                it = Interp(dom, max_paths=1024)
                 args = {params[0]: _Self()}
                 for a in params[1:]:
                     args[a] = OPAQUE
